@@ -14,16 +14,18 @@ pub mod typeck;
 pub mod c01;
 pub mod c02;
 pub mod c03;
+pub mod c04;
 
 use runner::{Run, Sub};
 
-pub const PROPS: &[&str] = &["C01", "C02", "C03"];
+pub const PROPS: &[&str] = &["C01", "C02", "C03", "C04"];
 
 pub fn subs_of(prop: &str) -> Option<Vec<Sub>> {
     match prop {
         "C01" => Some(c01::subs()),
         "C02" => Some(c02::subs()),
         "C03" => Some(c03::subs()),
+        "C04" => Some(c04::subs()),
         _ => None,
     }
 }
@@ -33,6 +35,7 @@ pub fn run_prop(run: &Run) -> bool {
         "C01" => c01::run(run),
         "C02" => c02::run(run),
         "C03" => c03::run(run),
+        "C04" => c04::run(run),
         _ => return false,
     }
     true
